@@ -594,6 +594,8 @@ class P:
             if self.at(op):
                 self.eat()
                 r = self.expr()
+                if self.at("}"):
+                    return ("assign", op, e, r)  # `{ a = b }`: an assignment in tail position (value `()`)
                 self.eat(";")
                 return ("assign", op, e, r)
         if self.at(";"):
@@ -750,6 +752,7 @@ TRAITS = set()
 
 
 STRUCTS = {}
+TUPLE_STRUCTS = {}  # `struct Name<..>(T0, T1, ..);`: name -> [("0", T0), ("1", T1), ..] (fields are addressed as `.0`, `.1`)
 MACROS = {}
 BLOCK_SIZES = {}
 KEY_SIZES = {}
@@ -785,6 +788,20 @@ def find_functions(path, cfg=()):
                     except Unsupported:
                         fields.append((fm.group(1), ("name", "?", [])))
             STRUCTS.setdefault(m.group(1), fields)
+        except Unsupported:
+            pass
+    for m in re.finditer(r"\bstruct\s+(\w+)\s*(?:<[^{;(]*?>)?\s*\(", src):
+        try:
+            end = match_paren(src, m.end() - 1)
+            fields = []
+            for i_, f in enumerate(x_ for x_ in split_top(src[m.end():end - 1]) if x_.strip()):
+                f = re.sub(r"#\[[^\]]*\]", "", f).strip()
+                f = re.sub(r"^pub(?:\([a-z:]+\))?\s+", "", f)
+                try:
+                    fields.append((str(i_), P(lex(f)).ty()))
+                except Unsupported:
+                    fields.append((str(i_), ("name", "?", [])))
+            TUPLE_STRUCTS.setdefault(m.group(1), fields)
         except Unsupported:
             pass
     for m in re.finditer(r"((?:#\[[^\]]*\]\s*)*)macro_rules!\s*(\w+)\s*[\{\(]", src):
@@ -861,6 +878,8 @@ def find_functions(path, cfg=()):
             spans.append((m.start(), bend, name, fn))
             if owner:
                 fns.setdefault(f"{owner[1]}::{name}", fn)
+            else:
+                fns.setdefault(f"::{name}", fn)  # a free function stays reachable when a method of the same name exists
             if name not in fns:
                 fns[name] = fn
         except Unsupported as e:
@@ -1146,7 +1165,10 @@ class Exec:
             arg = self.fresh(name)
             inputs.append((arg, 8 * n))
             inp = Arr([Slot(BV(8, f"{arg}.extractLsb' {8 * (n - 1 - i)} 8", atom=False)) for i in range(n)])
-            return InOutV(inp, Arr([Slot(None) for _ in range(n)]))
+            inp.newtype = True  # `Block<Self>` is a hybrid array: `.0` is the inner `[u8; N]`
+            out_ = Arr([Slot(None) for _ in range(n)])
+            out_.newtype = True
+            return InOutV(inp, out_)
         if t[0] == "name" and t[1] in ("Key", "Block") and self.self_ty:
             n = (self.lens.get("#key") or KEY_SIZES.get(self.self_ty)) if t[1] == "Key" else BLOCK_SIZES.get(self.self_ty)
             if n is None:
@@ -1176,6 +1198,17 @@ class Exec:
                     inputs.append((arg, 8 * m))
                     out_.append(Slot(Arr([Slot(BV(8, f"{arg}.extractLsb' {8 * (m - 1 - i)} 8", atom=False)) for i in range(m)])))
                 return Arr(out_)
+            if name in self.packed and self.hybrid_len(el) is not None:
+                # an array of hybrid byte arrays (`[Block; N]`): one BitVec per element
+                m = self.hybrid_len(el)
+                out_ = []
+                for j in range(n):
+                    arg = self.fresh(f"{name}{j}")
+                    inputs.append((arg, 8 * m))
+                    a_ = Arr([Slot(BV(8, f"{arg}.extractLsb' {8 * (m - 1 - i)} 8", atom=False)) for i in range(m)])
+                    a_.newtype = True
+                    out_.append(Slot(a_))
+                return Arr(out_)
             if name in self.packed and el == ("name", "u8", []):
                 # a byte string passed as one BitVec (byte 0 = most significant byte)
                 arg = self.fresh(name)
@@ -1184,15 +1217,19 @@ class Exec:
             return Arr([Slot(self.param_value(f"{name}{i}", t[1], inputs)) for i in range(n)])
         if t[0] == "name" and t[1] == "Array" and name in self.lens:
             raise Unsupported("hybrid_array parameter")
+        if self.hybrid_len(t) is not None:
+            v = self.param_value(name, ("arr", ("name", "u8", []), ("num", str(self.hybrid_len(t)))), inputs)
+            v.newtype = True
+            return v
         if t[0] == "tup":
             return Arr([Slot(self.param_value(f"{name}{i}", x, inputs)) for i, x in enumerate(t[1])])
         raise Unsupported(f"parameter type {t}")
 
     def struct_value(self, ty, name, inputs):
-        if ty not in STRUCTS:
+        if ty not in STRUCTS and ty not in TUPLE_STRUCTS:
             raise Unsupported(f"struct {ty} not found")
         fields = {}
-        for fname, fty in STRUCTS[ty]:
+        for fname, fty in (STRUCTS[ty] if ty in STRUCTS else TUPLE_STRUCTS[ty]):
             rt = self.resolve(fty)
             if rt[0] == "name" and rt[1] in ("PhantomData", "?"):
                 continue
@@ -1203,8 +1240,48 @@ class Exec:
             fields[fname] = Slot(self.param_value(f"{name}_{fname}", fty, inputs))
         return Struct(ty, fields)
 
+    def hybrid_len(self, t):
+        """N for the hybrid-array type `Array<u8, UN>` (after alias resolution), else None"""
+        if t[0] == "name" and t[1] == "Array" and len(t[2]) == 3 and t[2][0] == "u8" and t[2][1] == "," \
+                and isinstance(t[2][2], str) and re.fullmatch(r"U\d+", t[2][2]):
+            return int(t[2][2][1:])
+        return None
+
+    def reinterpret(self, arr, t):
+        """`&*(bytes.as_ptr().cast())` towards `&[[uN; a]; b]`: the constant byte array read as little-endian integers
+        (every supported target is little-endian, as for `from_ne_bytes`)"""
+        bs = []
+        for sl in arr.slots:
+            b_ = self.deref_all(sl.v)
+            if not (isinstance(b_, BV) and b_.w == 8 and b_.const is not None):
+                raise Unsupported("pointer cast of a non-constant or non-byte array")
+            bs.append(b_.const)
+        pos = [0]
+
+        def build(ty):
+            ty = self.resolve(ty)
+            if ty[0] == "arr":
+                n = self.const_of(self.eval(ty[2], {}))
+                return Arr([Slot(build(ty[1])) for _ in range(n)])
+            if ty[0] == "name" and ty[1] in WIDTH and WIDTH[ty[1]] % 8 == 0:
+                k = WIDTH[ty[1]] // 8
+                if pos[0] + k > len(bs):
+                    raise Unsupported("pointer cast reads past the end of the array")
+                val = int.from_bytes(bytes(bs[pos[0]:pos[0] + k]), "little")
+                pos[0] += k
+                return BV(WIDTH[ty[1]], const=val)
+            raise Unsupported(f"pointer cast to {ty}")
+        out = build(t)
+        if pos[0] != len(bs):
+            raise Unsupported("pointer cast: size mismatch")
+        return out
+
     def zero_of(self, t):
         t = self.resolve(t)
+        if self.hybrid_len(t) is not None:
+            v = Arr([Slot(BV(8, const=0)) for _ in range(self.hybrid_len(t))])
+            v.newtype = True
+            return v
         if t[0] == "name" and t[1] in WIDTH:
             return BV(WIDTH[t[1]], const=0)
         if t[0] == "arr":
@@ -1621,7 +1698,10 @@ class Exec:
         if isinstance(v2, Ref):
             return v2
         if isinstance(v2, Arr):
-            return Arr([Slot(self.copy(s.v)) for s in v2.slots])
+            c_ = Arr([Slot(self.copy(s.v)) for s in v2.slots])
+            if v2.newtype:
+                c_.newtype = True
+            return c_
         if isinstance(v2, Lanes):
             return self.lanes_value(v2)  # a copy does not alias the `[u32]` view
         return v2
@@ -1803,6 +1883,12 @@ class Exec:
                 return base.slots[i]
             raise Unsupported("lvalue index into non-array")
         if k == "field":
+            if e[2] == "0":
+                s0 = self.lvalue(e[1], env)
+                while isinstance(s0.v, Ref):
+                    s0 = s0.v.slot
+                if isinstance(s0.v, Arr) and s0.v.newtype:
+                    return s0  # `block.0 = …` on a hybrid array / one-field wrapper: the inner array is the value itself
             base = self.deref_all(self.lvalue_value(e[1], env))
             if isinstance(base, Struct) and e[2] in base.fields:
                 return base.fields[e[2]]
@@ -1903,6 +1989,9 @@ class Exec:
             raise Unsupported(f"InOut method .{name}()")
         if isinstance(rv, RawPtr):
             return self.ptr_method(rv, name, args, e, env)
+        if name == "as_ptr" and not args and isinstance(rv, Arr) and rv.slots and \
+                all(isinstance(self.deref_all(sl.v), BV) and self.deref_all(sl.v).const is not None for sl in rv.slots):
+            return ("ptr", rv)   # a constant byte table reinterpreted through `.cast()` + a typed `let` (big_soft fused tables)
         if name in ("as_ptr", "as_mut_ptr") and not args and isinstance(rv, Arr):
             return self.as_raw_ptr(rv, elem=True)
         if isinstance(rv, Struct) and name in ("unwrap", "expect", "clone", "into"):
@@ -1954,8 +2043,22 @@ class Exec:
             order = range(n - 1, -1, -1) if name == "to_be_bytes" else range(n)
             return Arr([Slot(BV(8, f"{a.par()}.extractLsb' {8 * i} 8", atom=False) if a.const is None
                              else BV(8, const=(a.const >> (8 * i)) & 0xFF)) for i in order])
+        if name in ("into", "try_into") and isinstance(rv, BV) and rv.const is not None and want and rv.w not in (None, want):
+            if rv.const >= (1 << want):
+                raise Unsupported(f"{name}(): constant {rv.const} does not fit {want} bits")
+            return BV(want, const=rv.const)
+        if name == "pow" and isinstance(rv, BV) and rv.const is not None:
+            ex_ = self.const_of(self.eval(args[0], env, 32))
+            val = rv.const ** ex_
+            if rv.w is not None and val >= (1 << rv.w):
+                raise Unsupported("pow overflows")
+            return BV(rv.w, const=val)
         if name in ("clone", "into", "try_into", "unwrap", "expect", "as_ref", "as_mut", "as_slice", "as_mut_slice", "borrow", "to_owned", "ok_or"):
             return self.copy(rv) if name in ("clone", "to_owned") else recv
+        if name == "as_ptr" and isinstance(rv, Arr):
+            return ("ptr", rv)
+        if name == "cast" and isinstance(rv, tuple) and rv and rv[0] == "ptr":
+            return ("ptrcast", rv[1])  # resolved by the type annotation of the enclosing `let` (reinterpret)
         if name == "len":
             if isinstance(rv, Arr):
                 return BV(64, const=len(rv.slots))
@@ -1969,7 +2072,7 @@ class Exec:
             if isinstance(rv, tuple) and rv[0] == "range":
                 return BV(1, const=int((rv[1] or 0) <= x < rv[2]))
             raise Unsupported("contains on non-constant collection")
-        if name == "copy_from_slice":
+        if name in ("copy_from_slice", "clone_from_slice"):
             src = self.deref_all(self.eval(args[0], env))
             if isinstance(rv, Arr) and isinstance(src, Arr) and len(rv.slots) == len(src.slots):
                 for d, s in zip(rv.slots, src.slots):
@@ -2013,6 +2116,9 @@ class Exec:
             if name != "chunks" and len(sl) % n:
                 sl = sl[:len(sl) - len(sl) % n]
             return ("list", [Arr(sl[i:i + n]) for i in range(0, len(sl), n)])
+        if isinstance(base, Arr) and name == "map":
+            c = self.eval(args[0], env)  # `[T; N]::map`
+            return Arr([Slot(self.apply_closure(c, [self.deref_all(sl.v)])) for sl in base.slots])
         if not (isinstance(base, tuple) and base[0] == "list"):
             raise Unsupported(f".{name}() on a non-iterator")
         xs = base[1]
@@ -2138,6 +2244,23 @@ class Exec:
             raise Unsupported("mem::swap on non-references")
         if name == "Wrapping" and len(args) == 1:
             return self.eval(args[0], env, want)
+        if len(p) == 1 and name == "Self" and self.self_ty in TUPLE_STRUCTS:
+            name = self.self_ty
+        if len(p) == 1 and name == "Array" and "Array" not in self.fns and len(args) == 1:
+            v = self.deref_all(self.eval(args[0], env, want))  # hybrid_array::Array([u8; N])
+            if isinstance(v, Arr):
+                v = self.copy(v)
+                v.newtype = True
+                return v
+            raise Unsupported("Array(…) around a non-array")
+        if len(p) == 1 and name in TUPLE_STRUCTS and name not in self.fns and len(TUPLE_STRUCTS[name]) == 1 and len(args) == 1:
+            # one-field wrapper `Align16(x)`: transparent; `.0` gives the wrapped array back
+            v = self.deref_all(self.eval(args[0], env, want))
+            if isinstance(v, Arr):
+                v = self.copy(v)
+                v.newtype = True
+                return v
+            raise Unsupported(f"tuple struct {name}(…) around a non-array")
         if name in ("Ok", "Some") and len(args) == 1 and len(p) == 1:
             return self.eval(args[0], env, want)
         if name == "Err" and len(p) == 1:
@@ -2166,6 +2289,8 @@ class Exec:
                         return self.inline(fn, actual, keep_self=True)
                     finally:
                         self.self_ty = saved
+        if len(p) == 1 and name in self.fns and getattr(self.fns[name], "owner", None) and f"::{name}" in self.fns:
+            name = f"::{name}"  # a bare call `f(…)` names the free function, not a method `T::f`
         if name in self.fns:
             fn = self.fns[name]
             actual = []
@@ -2320,6 +2445,14 @@ class Exec:
                     v = self.eval(st[3], env, want)
                 finally:
                     self.want_ty.pop(id(st[3]), None)
+                pc_ = self.deref_all(v)
+                if isinstance(pc_, tuple) and pc_ and pc_[0] == "ptrcast":
+                    if st[2] is None:
+                        raise Unsupported("pointer cast without a type annotation")
+                    tt_ = self.resolve(st[2])
+                    while tt_[0] == "ref":
+                        tt_ = self.resolve(tt_[2])
+                    v = Ref(Slot(self.reinterpret(pc_[1], tt_)))
                 if isinstance(v, BV) and v.w is None and want:
                     v = BV(want, const=v.const)
                 if isinstance(v, Arr):
@@ -2456,7 +2589,7 @@ def flatten(v, out, ex):
         raise Unsupported(f"cannot return {type(v).__name__}")
 
 
-def translate(crate, path, fname, lean_name, lens=None, cfg=(), extra_files=(), doc="", packed=(), outs_only=(), pack_out=0, generics=None, self_ty=None, fields=None, types=None):
+def translate(crate, path, fname, lean_name, lens=None, cfg=(), extra_files=(), doc="", packed=(), outs_only=(), pack_out=0, generics=None, self_ty=None, fields=None, types=None, fixed=None):
     """returns (lean text, signature description) or raises Unsupported"""
     fns, consts, aliases, errs = find_functions(os.path.join(REPO, path), cfg)
     # siblings: every other source file of the crate (the file of the function itself takes precedence)
@@ -2490,8 +2623,12 @@ def translate(crate, path, fname, lean_name, lens=None, cfg=(), extra_files=(), 
     inputs, env, muts = [], {}, []
     for pat, t in fn.params:
         pname = pat[1] if pat[0] == "pid" else (pat[1][1] if pat[0] == "pref" and pat[1][0] == "pid" else "p")
-        v = ex.param_value(pname, t, inputs)
         rt = ex.resolve(t)
+        if fixed and pname in fixed and rt[0] == "name" and rt[1] in WIDTH:
+            # an integer parameter fixed to a constant for this target (e.g. RC2's `eff_key_len`)
+            ex.bind_pat(pat, BV(WIDTH[rt[1]], const=int(fixed[pname])), env)
+            continue
+        v = ex.param_value(pname, t, inputs)
         if rt[0] == "ref" and rt[1]:
             muts.append(v)
         if isinstance(v, InOutV):
@@ -2530,7 +2667,8 @@ def translate(crate, path, fname, lean_name, lens=None, cfg=(), extra_files=(), 
         rows = [", ".join(f"{v:#x}" for v in vals[i:i + 16]) for i in range(0, len(vals), 16)]
         auxtxt += (f"/-- a constant table computed by the source (const fn / associated const) and read with a data-dependent index in `{fname}` -/\n"
                    f"def {nm} : Array Nat := #[\n  " + ",\n  ".join(rows) + "]\n\n")
-    text = auxtxt + f"/-- `{path}`: `fn {fname}`{cfgtxt}{doc} -/\ndef {lean_name} {args} : {rty} :=\n" + "\n".join(ex.lines) + ("\n" if ex.lines else "") + f"  {res}\n"
+    big = "set_option maxHeartbeats 4000000 in\n" if len(ex.lines) > 10000 else ""  # very long `let` chains exceed the default elaboration budget
+    text = auxtxt + f"{big}/-- `{path}`: `fn {fname}`{cfgtxt}{doc} -/\ndef {lean_name} {args} : {rty} :=\n" + "\n".join(ex.lines) + ("\n" if ex.lines else "") + f"  {res}\n"
     return text, {"inputs": inputs, "outputs": [o.w for o in outs]}
 
 
@@ -2615,6 +2753,20 @@ CIPHER_TARGETS = (
            for t in ["Threefish256", "Threefish512", "Threefish1024"]], [])
 )
 
+KUZ_C = "kuznyechik/src/compact_soft/backends.rs"
+KUZ_S = "kuznyechik/src/big_soft/backends.rs"
+CIPHER_TARGETS = CIPHER_TARGETS + [
+    T("kuznyechik", KUZ_C, "EncBackend::encrypt_block", "kuznyechik_compact_encrypt_block", packed=("self_0",)),
+    T("kuznyechik", KUZ_C, "DecBackend::decrypt_block", "kuznyechik_compact_decrypt_block", packed=("self_0",)),
+    # big_soft: the fused tables (two const fns, 16 x 256 x 16 bytes each) are evaluated by the translator (~40 s per function)
+    T("kuznyechik", KUZ_S, "EncBackend::encrypt_block", "kuznyechik_soft_encrypt_block", file="Kuznyechik_soft"),
+    T("kuznyechik", KUZ_S, "DecBackend::decrypt_block", "kuznyechik_soft_decrypt_block", file="Kuznyechik_soft"),
+    # the helpers of the compact backend as functions of their own
+    T("kuznyechik", KUZ_C, "lsx", "kuznyechik_compact_lsx", packed=("block", "key"), pack_out=16, file="Kuznyechik_fn"),
+    T("kuznyechik", KUZ_C, "lsx_inv", "kuznyechik_compact_lsx_inv", packed=("block", "key"), pack_out=16, file="Kuznyechik_fn"),
+] + [T("kuznyechik", "kuznyechik/src/utils.rs", "l_step", f"kuznyechik_l_step_{i}", packed=("msg",), pack_out=16, fixed={"i": i}, file="Kuznyechik_fn")
+     for i in range(16)]
+
 
 def generate(out_dir=OUT, targets=TARGETS, fname="Funcs.lean"):
     """writes Gen/Funcs.lean; returns the list of broken targets"""
@@ -2623,7 +2775,7 @@ def generate(out_dir=OUT, targets=TARGETS, fname="Funcs.lean"):
              "import BlockCiphers.Gen.Tables", "import BlockCiphers.Prelude.GenTypes"] + [f"import {i}" for i in extra_imports] + ["set_option maxRecDepth 100000", "set_option linter.unusedVariables false", "namespace BC.Gen.Fn", ""]
     broken = []
     for t in targets:
-        kw = {k: v for k, v in t.items() if k not in ("crate", "path", "fn", "lean", "imports")}
+        kw = {k: v for k, v in t.items() if k not in ("crate", "path", "fn", "lean", "imports", "file")}
         try:
             text, sig = translate(t["crate"], t["path"], t["fn"], t["lean"], **kw)
             parts.append(text)
@@ -2669,6 +2821,18 @@ KEY_TARGETS = (
     + sum([K("threefish", "threefish/src/lib.rs", f"{t}::new_with_tweak", f"{t.lower()}_new_with_tweak") for t in ["Threefish256", "Threefish512", "Threefish1024"]], [])
 )
 
+KEY_TARGETS = KEY_TARGETS + (
+    K("kuznyechik", "kuznyechik/src/compact_soft/mod.rs", "EncKeys::new", "kuznyechik_compact_enckeys_new", pack_out=16)
+    + K("kuznyechik", "kuznyechik/src/big_soft/mod.rs", "EncKeys::new", "kuznyechik_soft_enckeys_new", file="Kuznyechik_soft")
+    + K("kuznyechik", KUZ_S, "inv_enc_keys", "kuznyechik_soft_inv_enc_keys", file="Kuznyechik_soft")
+)
+KEY_TARGETS = KEY_TARGETS + (
+    sum([K("speck", "speck/src/lib.rs", f"{t}::new", f"{t.lower()}_new") for t in SPECK], [])
+    + sum([K("cast5", "cast5/src/lib.rs", "Cast5::new_from_slice", f"cast5_new_from_slice_{n}", lens={"key": n}) for n in (5, 10, 11, 16)], [])
+    + sum([K("rc2", "rc2/src/lib.rs", "Rc2::new_from_slice", f"rc2_new_from_slice_{n}", lens={"key": n}) for n in (1, 5, 8, 16)], [])
+    + sum([K("rc2", "rc2/src/lib.rs", "Rc2::new_with_eff_key_len", f"rc2_new_with_eff_key_len_{n}_{e}", lens={"key": n}, fixed={"eff_key_len": e})
+           for n, e in ((8, 63), (16, 64), (16, 128), (5, 40))], [])
+)
 
 AES_T = {"BatchBlocks": "[[u8; 16]; FIXN]", "Block": "[u8; 16]"}
 
@@ -2736,7 +2900,7 @@ def cipher_files():
     """whole-cipher targets grouped per crate: Gen/Cipher_<Crate>.lean (separate modules build in parallel)"""
     groups = {}
     for t in CIPHER_TARGETS:
-        groups.setdefault(t["crate"].replace("-", "_").capitalize(), []).append(t)
+        groups.setdefault(t.get("file") or t["crate"].replace("-", "_").capitalize(), []).append(t)
     return groups
 
 
@@ -2764,7 +2928,7 @@ def generate_all(out_dir=OUT):
         jobs.append((f"Cipher_{crate}.lean", ts))
     groups = {}
     for t in KEY_TARGETS:
-        groups.setdefault(t["crate"].replace("-", "_").capitalize(), []).append(t)
+        groups.setdefault(t.get("file") or t["crate"].replace("-", "_").capitalize(), []).append(t)
     for crate, ts in groups.items():
         jobs.append((f"Keys_{crate}.lean", ts))
     for fname, ts in AES_FILES.items():
